@@ -413,6 +413,9 @@ func vDiskCase(t *testing.T, rec *vCase, rng *vRand, ci int) {
 			case 1:
 				size++
 			}
+			if px != nil && rng.Pct(25) {
+				size = -1 // plain HTTP GETs do not know the size: the read-through path must cope
+			}
 			off := int64(0)
 			if rng.Pct(65) && size > 0 {
 				off = rng.I64n(size + 2)
@@ -508,6 +511,9 @@ func vDiskCase(t *testing.T, rec *vCase, rng *vRand, ci int) {
 			opKind = "get-" + strings.SplitN(res, " ", 2)[0]
 			if ans.kind != "none" {
 				opKind += "-proxy"
+				if size < 0 {
+					opKind += "-unknownsize"
+				}
 			}
 			// ---- C02/C12 oracle: a hit returns the right bytes
 			if strings.HasPrefix(res, "hit") {
@@ -595,6 +601,10 @@ func vDiskCase(t *testing.T, rec *vCase, rng *vRand, ci int) {
 		}
 		if c04 != "" {
 			rec.Violation("C04", "disk.directory."+opKind, c04, rec.CaseOps())
+			if strings.Contains(opKind, "-proxy") {
+				// C12: a read-through must cache the entry properly and never leak files
+				rec.Violation("C12", "disk.directory."+opKind, "after a read through the back end: "+c04, rec.CaseOps())
+			}
 			break
 		}
 	}
